@@ -177,6 +177,7 @@ pub open spec fn first_line_schema(bedpath: Str) -> Option<Str> {
 }
 
 //@extract fn bigtools/src/utils/cli/bedtobigbed.rs bedtobigbed
+//@rule R16
 //@presub /\A.*?\n([ \t]*let autosql = .*?)\n\s*let infile = File::open\(&bedpath\)[^;]*;\s*let \(parallel, parallel_required\).*\Z/ => fn choose_autosql(args: &BedToBigBedArgs, bedpath: Str, nthreads: usize, outb: &mut BigBedWrite, env: &mut Env) -> Result<(), AnyErr> {\n\1\n    Ok(())\n} min=1 count=1
 //@sub /\bFile::open\(/ => env.open( min=0
 //@sub /\s*\.with_context\(\|\|\s*format!\([^;]*?\)\)(?=\?)/ => "" min=0
@@ -208,6 +209,7 @@ pub open spec fn first_line_schema(bedpath: Str) -> Option<Str> {
 // writer's default, the three-field BED schema, is stored whatever the rows carry): see NOTES.md
 // "Suspected defect"; no clause is written for that case (maintainer's decision pending).
 //@extract fn bigtools/src/utils/cli/bedtobigbed.rs bedtobigbed
+//@rule R16
 //@presub /\A.*?if bedpath == "-" \|\| bedpath == "stdin" \|\| bedpath == "/dev/stdin" \{\n(.*?)\n\s*let stdin = std::io::stdin\(\)\.lock\(\);.*\Z/ => fn stdin_autosql(args: &BedToBigBedArgs, bedpath: Str, nthreads: usize, outb: &mut BigBedWrite, env: &mut Env) -> Result<(), AnyErr> {\n\1\n    Ok(())\n} min=1 count=1
 //@sub /\bFile::open\(/ => env.open( min=0
 //@sub /\s*\.with_context\(\|\|\s*format!\([^;]*?\)\)(?=\?)/ => "" min=0
